@@ -33,7 +33,7 @@ ASSUMPTIONS = [
 ]
 DECIDING = ['udpcl.agent:Agent._send_transfer', 'udpcl.agent:Agent._recv_datagram', 'udpcl.agent:Agent._recv_ext_map',
             'udpcl.agent:Agent._process_tx_queue', 'udpcl.agent:TxSendWait._update_send', 'udpcl.agent:range_encode']
-REQUIRED_OBS = ['sends', 'receives_with_own_mtu', 'segmented_sends', 'segments_checked', 'receive_histories', 'multi_message_datagrams', 'repeats_injected',
+REQUIRED_OBS = ['stack_udpcl_pops', 'sends', 'receives_with_own_mtu', 'segmented_sends', 'segments_checked', 'receive_histories', 'multi_message_datagrams', 'repeats_injected',
                 'range_roundtrips']
 
 PEER = ('10.0.0.9', 5555)
@@ -316,10 +316,15 @@ def cases(tier, seed):
     for mtu in ((200, 257, 576, 1400) if thorough else (257, 576, 1400)):
         out.append(dict(id='multiples-%d' % mtu, kind='multiples', mtu=mtu))
     out.append(dict(id='ranges', kind='ranges', seed=seed))
+    from vf import stackcases  # pylint: disable=import-outside-toplevel
+    stackcases.add_cases(out, tier, seed)
     return out
 
 
 def run_case(case):
+    if case.get('kind') == 'stack':
+        from vf import stackcases  # pylint: disable=import-outside-toplevel
+        return stackcases.run_block(PROPERTY_ID, case)
     obs = dict(sends=0, segmented_sends=0, segments_checked=0, receive_histories=0, multi_message_datagrams=0, repeats_injected=0,
                range_roundtrips=0, budget_exhausted=0)
     violations = []
